@@ -2,7 +2,7 @@
    and the instantiation of the generic frame theorem for .PASSWDS / .PASSWD2. *)
 From Coq Require Import String.
 From Verif Require Import Base.Common Base.ListX Base.RecFile Model.C01_Frozen Model.C01.
-From Verif Require Export Proofs.C01_codec Proofs.C01_frame.
+From Verif Require Export Proofs.C01_codec Proofs.C01_frame Proofs.C01_restart.
 From Verif Require Gen.Consts_default Gen.Consts_docker.
 From Coq Require Import ZifyBool.
 Ltac Zify.zify_post_hook ::= Z.div_mod_to_equations.
